@@ -12,6 +12,9 @@ import ast
 import math
 import re
 from fractions import Fraction
+import itertools
+
+import numpy as np
 
 from vt import alg, extract, sx
 from vt.alg import Ctx, X
@@ -416,6 +419,82 @@ def _native_patch(et, mt):
         return dict(confirmed=False, error=repr(e))
 
 
+SHAPE_ET = {"Segment": "SEG2", "Triangle": "TRI3", "Quadrangle": "QUAD4", "Tetrahedron": "TETRA4", "Hexahedron": "HEXA8", "Prism": "PRISM6"}
+
+
+def ob_mesh_rule(shape, nPg, idx):
+    """mesh level (the integration measure every operator and Integrate_e use): with the rule selected by its POINT COUNT on a 2-element affine patch,
+    the weighted Jacobians sum to the measure of each element and Integrate_e is exact for every monomial of total degree <= the documented order
+    (an affine map keeps the degree).  Rules with a negative weight (5-point tetrahedron, 8-point prism) are included."""
+    from . import patches
+    fnname, dim, meas = SHAPES[shape]
+    av, orders = doc_orders(fnname)
+    order = min(v[idx] for v in orders.values())
+    et = SHAPE_ET[shape]
+    mesh = patches.two_element_mesh(et)
+    g = mesh.groupElem
+    try:
+        wJ = np.asarray(g.Get_weightedJacobian_e_pg(nPg))
+    except Exception as ex:
+        raise Unsupported(f"the group does not accept the point count {nPg} as a matrix type: {type(ex).__name__}: {str(ex)[:100]}")
+    if wJ.shape[1] != nPg:
+        raise Unsupported(f"point count {nPg} gives {wJ.shape[1]} points")
+    meas_e = {1: lambda: g.length_e, 2: lambda: g.area_e, 3: lambda: g.volume_e}[dim]()
+    ref_e = _elem_measures(et, np.asarray(mesh.coord), np.asarray(g.connect))
+    n = 1
+    e0 = float(np.abs(wJ.sum(1) - ref_e).max() / ref_e.max())
+    if e0 > 1e-12:
+        raise Refuted(f"{shape} rule with {nPg} points on a {et} patch: weighted Jacobians sum to {wJ.sum(1).tolist()}, the elements measure {ref_e.tolist()}", cex=dict(shape=shape, nPg=nPg),
+                      signature=f"mesh_rule:{shape}:{nPg}:measure", replay=dict(confirmed=True, rel_err=e0))
+    # exact integrals of monomials over the affine image of the reference element: by the change of variables, via the exact reference integrals (ref_integral)
+    co = np.asarray(mesh.coord)
+    con = np.asarray(g.connect)
+    ref_nodes = np.array([[float(x) for x in p_] for p_ in patches.ref_nodes(et)])
+    worst = 0.0
+    for e in range(con.shape[0]):
+        # affine map x = A xi + b from the vertices
+        X0 = co[con[e]][:, :3]
+        M = np.hstack([ref_nodes, np.ones((ref_nodes.shape[0], 1))])
+        sol = np.linalg.lstsq(M, X0, rcond=None)[0]          # (dim+1, 3)
+        A, b = sol[:dim].T, sol[dim]
+        import sympy as sp
+        xi = sp.symbols("a0:%d" % dim)
+        xs = [sum(sp.nsimplify(A[i, j], rational=True) * xi[j] for j in range(dim)) + sp.nsimplify(b[i], rational=True) for i in range(3)]
+        for exps in itertools.product(range(order + 1), repeat=dim):
+            if sum(exps) > order:
+                continue
+            f_sym = sp.expand(sp.Mul(*[xs[i] ** exps[i] for i in range(dim)]))
+            poly = sp.Poly(f_sym, *xi)
+            exact = sum(float(cf) * float(ref_integral(shape, mon)) for mon, cf in poly.terms()) * (ref_e[e] / float(meas))
+            got = float(np.asarray(g.Integrate_e(lambda x, y, z: (x ** exps[0]) * ((y ** exps[1]) if dim > 1 else 1) * ((z ** exps[2]) if dim > 2 else 1), nPg))[e])
+            n += 1
+            err = abs(got - exact) / max(abs(exact), ref_e[e])
+            worst = max(worst, err)
+            if err > 1e-10:
+                raise Refuted(f"{shape} rule with {nPg} points (documented order {order}) on a {et} patch: Integrate_e of x^{exps} over element {e} = {got:.12g}, exact {exact:.12g}",
+                              cex=dict(shape=shape, nPg=nPg, monomial=list(exps), element=e), signature=f"mesh_rule:{shape}:{nPg}:poly", replay=dict(confirmed=True, rel_err=err))
+    return Verdict(DISCHARGED, backend="native run of Integrate_e vs exact reference integrals mapped affinely", sub=n, detail=f"order {order}, worst {worst:.1e}")
+
+
+def _elem_measures(et, co, con):
+    out = []
+    for row in con:
+        P = co[row]
+        if et == "SEG2":
+            out.append(np.linalg.norm(P[1] - P[0]))
+        elif et == "TRI3":
+            out.append(0.5 * np.linalg.norm(np.cross(P[1] - P[0], P[2] - P[0])))
+        elif et == "QUAD4":        # affine image of the square: a parallelogram
+            out.append(np.linalg.norm(np.cross(P[1] - P[0], P[3] - P[0])))
+        elif et == "TETRA4":
+            out.append(abs(np.linalg.det(np.array([P[1] - P[0], P[2] - P[0], P[3] - P[0]]))) / 6)
+        elif et == "HEXA8":        # parallelepiped
+            out.append(abs(np.linalg.det(np.array([P[1] - P[0], P[3] - P[0], P[4] - P[0]]))))
+        elif et == "PRISM6":       # affine prism: triangle area x extrusion
+            out.append(abs(np.linalg.det(np.array([P[1] - P[0], P[2] - P[0], P[3] - P[0]]))) / 2)
+    return np.array(out)
+
+
 def build(tier, seed):
     obs = []
     funcs = {}
@@ -425,6 +504,10 @@ def build(tier, seed):
         for idx, nPg in enumerate(av):
             obs.append(Ob(f"C07.{shape}.{nPg}", ob_rule, (shape, nPg, idx), "P", (f"{PATH}::{fnname}",),
                           clause=f"{nPg} points inside; weights sum to |ref|; exact for all monomials of the documented order ({ {k: v[idx] for k, v in orders.items()} })"))
+        for idx, nPg in enumerate(av):
+            obs.append(Ob(f"C07.mesh.{shape}.{nPg}", ob_mesh_rule, (shape, nPg, idx), "X", ("EasyFEA/FEM/_group_elem.py::_GroupElem.Get_weightedJacobian_e_pg", "EasyFEA/FEM/_group_elem.py::_GroupElem.Integrate_e"),
+                          bound="2-element affine patch of the linear element of the shape, floats (1e-10)", timeout=300,
+                          clause="rule selected by its point count at mesh level: weighted Jacobians sum to the element measures; Integrate_e exact for every monomial up to the documented order"))
     for n in range(1, 9):
         obs.append(Ob(f"C07.Segment.{n}", ob_leggauss, (n,), "X", ("numpy.polynomial.legendre.leggauss (external)",),
                       bound="external function: values at run time", clause="Gauss-Legendre n points exact to degree 2n-1"))
